@@ -4,7 +4,9 @@
    Witnesses for the hypotheses: Foam/Current.v (ex_node_wf, ex_node_not_canonical,
    ex_node_roundtrip, ex_sint_min, ex_lunit_wf, ex_hdr_wf). *)
 Require Import ZArith List.
-Require Import AV.Foam.Buf AV.Foam.Syntax AV.Foam.Codec AV.Foam.SExpr AV.Foam.SLex AV.Foam.LibHdr AV.Gen.FoamInfo AV.Foam.Current.
+Require String.
+Require Import AV.XFloat.TextModel AV.XFloat.TextFacts.
+Require Import AV.Foam.Buf AV.Foam.Syntax AV.Foam.Codec AV.Foam.SExpr AV.Foam.SLex AV.Foam.SFlo AV.Foam.LibHdr AV.Foam.LibSect AV.Foam.LibSectFacts AV.Gen.FoamInfo AV.Foam.Current.
 Import ListNotations.
 Local Open Scope Z_scope.
 
@@ -78,3 +80,61 @@ Print Assumptions int_atom_roundtrip.
 Theorem str_atom_roundtrip : forall (s rest : bytes), rd_str (pr_str s ++ rest) = Some (s, rest).
 Proof. exact rd_pr_str. Qed.
 Print Assumptions str_atom_roundtrip.
+
+(* float atoms (SFlo / DFlo), on C19's model of DFloatSprint + the exponent marker: every FINITE
+   value reads back as written, for the 's' and the 'e' marker, +0.0 and -0.0 included.  libc's
+   printf and the scanners are oracles; the hypotheses are C19's two (a 17-digit correctly rounded
+   print/read is the identity; the reader reads the zero texts) and two about the marker.  Non-finite
+   constants (folded arithmetic) are excluded by [finite64]: the listed C19 finding.
+   Witness of the decision part: XFloat.TextFacts.ex_sprint_negzero, ex_sx_mark_zero, ex_sx_mark_exp. *)
+Theorem flo_atom_roundtrip :
+  forall (printf_g : String.string -> Z -> Z -> String.string) (strtod sx_scan : String.string -> option Z),
+    g17_roundtrip printf_g strtod -> reader_reads_zero_text strtod ->
+    printf_exponent_letter printf_g -> scanner_reads_marker strtod sx_scan ->
+    forall (single : bool) (bits : Z), 0 <= bits < 2 ^ 64 -> finite64 bits = true ->
+      sx_scan (pr_flo printf_g single bits) = Some bits.
+Proof. exact AV.Foam.SFlo.flo_atom_roundtrip. Qed.
+Print Assumptions flo_atom_roundtrip.
+
+(* ---- contents of .ao sections beyond the FOAM byte code (the container -- header, section table,
+   offsets, lengths, order, contiguity, libGetSection for all 17 section names -- is hdr_roundtrip /
+   sections_contiguous above and the C17 theorems).  Witnesses: Current.ex_names_raw, ex_names_bytes,
+   ex_names_cstrings. *)
+
+(* LIB_Id: bufWrString / bufRdString *)
+Theorem fileid_roundtrip : forall (s rest : bytes),
+  is_cstring s -> Z.of_nat (length s) + 1 < 4294967296 ->
+  dec_fileid (enc_fileid s ++ rest) = Some (s, rest).
+Proof. exact AV.Foam.LibSectFacts.fileid_roundtrip. Qed.
+Print Assumptions fileid_roundtrip.
+
+(* LIB_Name: the list of syme names, with repeated symbols stored as back references, reads back as
+   the same list (and the same count of top-level symes), whatever follows in the buffer *)
+Theorem names_section_roundtrip : forall (topc : Z) (names : list bytes) (rest : bytes),
+  Forall is_cstring names -> Z.of_nat (length names) < 65536 -> 0 <= topc < 65536 ->
+  exists raw, dec_names (enc_names (names_to_raw topc names) ++ rest) = Some (raw, rest) /\
+              names_of raw = Some names /\ n_topc raw = topc.
+Proof. exact AV.Foam.LibSectFacts.names_section_roundtrip. Qed.
+Print Assumptions names_section_roundtrip.
+
+(* LIB_Kind (one byte per syme), LIB_Lazy ((index, library syme, type hash) records closed by symec),
+   LIB_File ((index, kind, file name) records closed by symec) *)
+Theorem kinds_roundtrip : forall (ks : list Z) (rest : bytes),
+  Forall (fun k => 0 <= k < 256) ks ->
+  dec_kinds (Z.of_nat (length ks)) (enc_kinds ks ++ rest) = Some (ks, rest).
+Proof. exact AV.Foam.LibSectFacts.kinds_roundtrip. Qed.
+Print Assumptions kinds_roundtrip.
+
+Theorem lazy_section_roundtrip : forall (symec : Z) (rs : list (Z * Z * Z)),
+  0 <= symec < 65536 ->
+  Forall (fun r => 0 <= fst (fst r) < symec /\ 0 <= snd (fst r) < 65536 /\ 0 <= snd r < 4294967296) rs ->
+  dec_lazy_sect symec (enc_lazy_sect symec rs) = Some (rs, []).
+Proof. exact AV.Foam.LibSectFacts.lazy_section_roundtrip. Qed.
+Print Assumptions lazy_section_roundtrip.
+
+Theorem file_section_roundtrip : forall (symec : Z) (rs : list (Z * Z * bytes)),
+  0 <= symec < 65536 ->
+  Forall (fun r => 0 <= fst (fst r) < symec /\ 0 <= snd (fst r) < 256 /\ is_cstring (snd r)) rs ->
+  dec_file_sect symec (enc_file_sect symec rs) = Some (rs, []).
+Proof. exact AV.Foam.LibSectFacts.file_section_roundtrip. Qed.
+Print Assumptions file_section_roundtrip.
